@@ -33,6 +33,10 @@ EXPLANATION += ' R1/R3 accept the required-attribute check and the prepare_dump 
 TECHNIQUE += '; evaluation of the segmentation pre-flight on abstract shells'
 EXPLANATION += ' R5 also includes the agreement of prepare_segmented with convert_to_segmented on 20 abstract shell / keep_sp combinations (shared with C14-R2).'
 EXPLANATION += ' R5 is the same semantic guard matrix (126 evaluations), replacing the textual classification of guard statements.'
+# --- metadata added for batch 7
+TECHNIQUE += '; evaluated guard matrix rows for ECP and ghost centres; CFG reachability of PrepareDumpError sources'
+EXPLANATION += ' Added: (R7) variants a writer does not implement and a missing selector key are rejected by the pre-flight (evaluated); (R8) the required attributes checked are those of the operation that writes the file, also through helpers, and dump_many requires at least what dump_one requires; (R9) PrepareDumpError is raised only before the output file is opened; R5 has rows for effective core charges and for ghost centres (core charge 0, atomic number kept): Molekel must refuse both because its reader derives the electron count from the atomic numbers.'
+# --- end metadata batch 7
 TRUSTED = [
     "CPython ast parser", "open(name, 'w') is the only truncation point (POSIX)",
     "with-statement closes the file on every exit", "whitelisted total externals do not raise",
